@@ -190,6 +190,9 @@ class ModuleResidue:
         return sorted(out, key=repr)
 
 
+CASE_SECONDS = 120
+
+
 def guarded(fn, *a, pair=False):
     """Run one oracle evaluation `fn(*a)` -> list of (cause, msg).  If reading psutil's answer makes the ORACLE stumble
     (it indexes / unpacks / takes attributes of a value that has not the documented shape) that is reported as a violation
@@ -197,7 +200,11 @@ def guarded(fn, *a, pair=False):
     On the unchanged tree no oracle stumbles, so this can only fire for a tree whose answers changed shape."""
     import traceback
     try:
-        return fn(*a)
+        with deadline(CASE_SECONDS):
+            return fn(*a)
+    except Hang as e:
+        bad = [("does-not-terminate", "%s (case %r)" % (e, a[0] if a else None))]
+        return (bad, "hang") if pair else bad
     except (AttributeError, TypeError, KeyError, IndexError, ValueError, AssertionError) as e:
         tb = traceback.extract_tb(e.__traceback__)
         where = "%s:%d" % (os.path.basename(tb[-1].filename), tb[-1].lineno)
@@ -262,3 +269,34 @@ class LongLived:
             finally:
                 cls.on = False
         return bad
+
+
+class Hang(Exception):
+    """the code under test did not come back within the wall-clock allowance of one case"""
+
+
+class deadline:
+    """with deadline(s): ...  -- raises Hang in the (main thread of the) current process after s seconds of wall time.
+    A case that does not terminate is a finding (reported as such), never a stuck check."""
+
+    def __init__(self, seconds):
+        self.s = seconds
+
+    def _fire(self, signum, frame):
+        raise Hang("no result after %d s" % self.s)
+
+    def __enter__(self):
+        import signal
+        import threading
+        self.active = threading.current_thread() is threading.main_thread()
+        if self.active:
+            self.old = signal.signal(signal.SIGALRM, self._fire)
+            signal.setitimer(signal.ITIMER_REAL, self.s)
+        return self
+
+    def __exit__(self, *a):
+        import signal
+        if self.active:
+            signal.setitimer(signal.ITIMER_REAL, 0)
+            signal.signal(signal.SIGALRM, self.old)
+        return False
